@@ -284,3 +284,47 @@ def _renv(U):
         if bad:
             ctx().ghost["bad"] = str(bad[:2])
     U.run(body, check_feasible=False)
+
+
+@unit("C12", "ray_init / ray_init_cluster: ray.init receives the worker environment that get_ray_runtime_env computed", scope="shape:user runtime_env given / absent; use_current_checkout on / off; stub ray", expect_min=2)
+def _ray_init(U):
+    import sys
+    import types as _t
+    calls = []
+    fake = _t.ModuleType("ray")
+    fake.is_initialized = lambda: False
+    fake.init = lambda **kw: calls.append(kw)
+
+    def genv(runtime_env, use_current_checkout=True):          # contract of get_ray_runtime_env (unit above): the user's entries plus the checkout
+        if not use_current_checkout:
+            return runtime_env
+        return dict(runtime_env or {}, py_modules=list((runtime_env or {}).get("py_modules", [])) + ["<driver checkout>"])
+    g = dict(get_ray_runtime_env=genv, get_ray_cpus_count=lambda: 1, print=lambda *a, **k: None, warnings=__import__("warnings"), os=_t.SimpleNamespace(environ={"ip_head": "1.2.3.4:5", "redis_password": "pw"}))
+    f = U.fn(FP, "ray_init", globs=g, model=False)
+    fc = U.fn(FP, "ray_init_cluster", globs=g, model=False)
+
+    def body():
+        saved = sys.modules.get("ray")
+        sys.modules["ray"] = fake
+        try:
+            ok = True
+            for user in (None, {"env_vars": {"OMP_NUM_THREADS": "1"}}, {"py_modules": ["/x/mod"]}):
+                for co in (True, False):
+                    del calls[:]
+                    kw = {} if user is None else {"runtime_env": dict(user)}
+                    f(use_current_checkout=co, num_cpus=3, **kw)
+                    want = genv(user, co)
+                    ok = ok and len(calls) == 1 and calls[0].get("num_cpus") == 3 and calls[0].get("runtime_env") == want
+            U.ensure("ray_init: ray.init gets the computed environment (the user's entries AND the driver's checkout), also when the user passed a runtime_env; other options passed through", ok)
+            ok = True
+            for user in (None, {"env_vars": {"A": "1"}}):
+                del calls[:]
+                fc(num_cpus=5, use_current_checkout=True, **({} if user is None else {"runtime_env": dict(user)}))
+                ok = ok and len(calls) == 1 and calls[0].get("runtime_env") == genv(user, True) and calls[0].get("num_cpus") == 5 and calls[0].get("address") == "auto"
+            U.ensure("ray_init_cluster: the same, with the cluster address options", ok)
+        finally:
+            if saved is None:
+                sys.modules.pop("ray", None)
+            else:
+                sys.modules["ray"] = saved
+    U.run(body, check_feasible=False)
